@@ -245,4 +245,38 @@ def systematic_sources(basic):
         eras = [e + ("",) * (4 - len(e)) for e in eras]
         out.append({"policies": pols, "zones": [{"name": "Gen/Zone0", "eras": eras, "features": set()}], "links": [],
                     "label": "%s/%s/%+d/%s/%s" % (h, nx, step, form, suf or "w")})
+
+    def src(pols, eras, label):
+        eras = [e + ("",) * (4 - len(e)) for e in eras]
+        out.append({"policies": [{"name": n_, "rules": r_, "features": set(), "multi": False} for n_, r_ in pols],
+                    "zones": [{"name": "Gen/Zone0", "eras": eras, "features": set()}], "links": [], "label": label})
+
+    for h in sorted(hemis):
+        a, b = hemis[h]
+        oh = "S" if h == "N" else "N"
+        off = 180 if h == "N" else -240
+        pa = [("Rule", "PA", 1985, "max", "-", a[0], a[1], a[2], a[3], a[4]), ("Rule", "PA", 1985, "max", "-", b[0], b[1], b[2], b[3], b[4])]
+        # (B) the policy of the following era starts (or stops) close to the era change: its state at the end of the
+        # previous year differs from the state one year earlier
+        for hh in (oh, h):
+            c, d = hemis[hh]
+            for fy, ty in ((2008, "max"), (2009, "max"), (2008, "only"), (2007, 2008), (1990, 2008), (1990, 2007)):
+                pb = [("Rule", "PB", fy, ty, "-", c[0], c[1], c[2], c[3], c[4]), ("Rule", "PB", fy, ty, "-", d[0], d[1], d[2], d[3], d[4])]
+                for form in (["2009"] if basic else ["2009", "2009 Jul 1"]):
+                    src([("PA", pa), ("PB", pb)], [(hm(off + 7), "-", "LMT", "1980"), (hm(off), "PA", "A%sT", form), (hm(off), "PB", "C%sT")],
+                        "%s/late-%s-%s-%s/%s" % (h, hh, fy, ty, form))
+        # (C) a one-off extra rule in the same month as a regular rule, in and around the first and last years of the window
+        for yx in (1998, 1999, 2000, 2030, 2036):      # zic does not honour one-off rules after 2037
+            if h == "N":
+                extra = ("Rule", "PA", yx, "only", "-", b[0], "3", "2:00", "0:30", "H")       # before the regular Oct lastSun
+            else:
+                extra = ("Rule", "PA", yx, "only", "-", a[0], "20", "2:00", "0", "S")          # after the regular Oct Sun>=1
+            src([("PA", pa + [extra])], [(hm(off + 7), "-", "LMT", "1980"), (hm(off), "PA", "A%sT")], "%s/extra-rule-same-month-%d" % (h, yx))
+        # (D) UNTIL given as a weekday expression, including ones that resolve into the neighbouring month
+        if not basic:
+            for form in ("2009 Sep Sun>=28 2:00", "2009 Oct Sat<=2 2:00", "2009 Mar lastSun 1:00u", "2009 Jun Sun>=8 0:00", "2009 Nov Sun>=29 3:00s",
+                         "2009 Jan Mon<=3 2:00"):
+                for nx in ("-", "same"):
+                    nxt = (hm(off + 60), "-", "FIX") if nx == "-" else (hm(off), "PA", "B%sT")
+                    src([("PA", pa)], [(hm(off + 7), "-", "LMT", "1980"), (hm(off), "PA", "A%sT", form), nxt], "%s/%s/until-dow/%s" % (h, nx, form))
     return out
